@@ -17,7 +17,7 @@ from wormhole.timing import DebugTiming  # noqa: E402
 
 CWD = "/w"
 # the sandbox: /w contains file "f", directory "d" (with file "d/f" and subdirectory "d/s"), file "f.tmp"
-FILES = {"/w/f", "/w/d/f", "/w/f.tmp", "/w/\u00e9", "/w/d/\u00e9"}     # (U+00E9: a precomposed name whose decomposed spelling e+U+0301 is a different file name)
+FILES = {"/w/f", "/w/d/f", "/w/f.tmp", "/w/\u00e9", "/w/d/\u00e9", "/w/g.tmp"}     # (g.tmp: a bystander next to a destination "g" that does not exist)     # (U+00E9: a precomposed name whose decomposed spelling e+U+0301 is a different file name)
 DIRS = {"/", "/w", "/w/d", "/w/d/s", "/w/\u00ea"}
 LINKS = {"/w/l": "/e/p"}      # a dangling symbolic link in the cwd (its target does not exist)
 
@@ -481,6 +481,9 @@ def jobs(tier):
     for mode in ("file", "directory"):
         for outsel in ("none", "dir"):
             J.append(NameSamples(mode, outsel, True))
+    # a directory transfer that is cut short touches nothing (in particular not a bystander <dirname>.tmp): job shared with C04
+    from harness.c04 import ReceiveDirectoryDrop
+    J.append(ReceiveDirectoryDrop())
     return J
 
 
